@@ -31,6 +31,7 @@ func registryTable(p *Prog) ([]RegEntry, *ssa.Global, error) {
 	}
 	// find the global of type map[string]CommonValidFn (Name2FnMap)
 	var table *ssa.Global
+	var readOnly []*ssa.Global
 	for _, m := range sp.Members {
 		g, ok := m.(*ssa.Global)
 		if !ok {
@@ -41,11 +42,20 @@ func registryTable(p *Prog) ([]RegEntry, *ssa.Global, error) {
 			continue
 		}
 		if isNamed(mt.Elem(), ModPath+"/valid", "CommonValidFn") {
+			// the registry is the table the registration API writes; further read-only tables of the same
+			// type (aliases, fallbacks consulted after it) are not it
+			if readOnlyGlobalMap(p, g) {
+				readOnly = append(readOnly, g)
+				continue
+			}
 			if table != nil {
 				return nil, nil, fmt.Errorf("two rule tables: %s and %s", table.Name(), g.Name())
 			}
 			table = g
 		}
+	}
+	if table == nil && len(readOnly) == 1 {
+		table = readOnly[0] // no registration API at all: the only table is the registry
 	}
 	if table == nil {
 		return nil, nil, fmt.Errorf("no package-level map[string]CommonValidFn in valid")
